@@ -278,6 +278,7 @@ func TestVerifC08(t *testing.T) {
 		}
 	}
 	sampled := 0
+	noTermination := 0
 	for i, h := range reqs {
 		h.body = strings.ReplaceAll(h.body, "KID_PLACEHOLDER", kidB64)
 		if !r.Begin(i+1, h.method+" "+vfTrunc([]byte(h.url), 300)) {
@@ -325,6 +326,11 @@ func TestVerifC08(t *testing.T) {
 				sig = "no-termination:" + d1
 			}
 			r.Violation(sig, map[string]any{"method": h.method, "url": vfTrunc([]byte(h.url), 400), "body": vfTrunc([]byte(h.body), 200), "watchdog_s": 105})
+			if noTermination++; noTermination >= 3 {
+				// the verdict is decided; every further stuck request would cost another watchdog period
+				r.Add("requests_not_run_after_repeated_no_termination", int64(len(reqs)-i-1))
+				break
+			}
 			continue
 		}
 		r.Eval(1)
